@@ -27,8 +27,7 @@ table; it is tied to the real `gix_config::File` by edit histories in the harnes
   so no comment is ever touched — over ALL edit histories.
 Not proved (see `C28_full`): that the serialized result parses back to the edited view (the
 print-then-parse direction of the grammar); evaluated by the oracle on every step of every
-generated history (reparse by gitoxide and by git). `set_existing_raw_value` (ValueMut) is outside
-the history theorems.
+generated history (reparse by gitoxide and by git).
 -/
 namespace GixModel.Props.C28
 open GixModel GixModel.C26 GixModel.C27 GixModel.C28
@@ -256,25 +255,34 @@ theorem loaded_bodies_well_formed (bs : Bytes) (f : FileS) (h : load bs = some f
     ∀ s ∈ f.sections, WFb s.body :=
   load_wf h
 
-/-- Over ALL edit histories of in-scope calls (all but `set_existing_raw_value`), bodies stay
-well formed. -/
-theorem history_bodies_well_formed (ops : List Op) (f : FileS) (hs : ∀ op ∈ ops, op.inScope = true)
+/-- Over ALL edit histories (every modelled call, failed ones included), bodies stay well formed. -/
+theorem history_bodies_well_formed (ops : List Op) (f : FileS)
     (hw : ∀ s ∈ f.sections, WFb s.body) : ∀ s ∈ (applyAll f ops).sections, WFb s.body :=
-  applyAll_wf ops f hs hw
+  applyAll_wf ops f hw
 
-/-- Over ALL edit histories of in-scope calls without `remove_section`: every section that was
-there at the start keeps exactly its comments, in order, whatever is set, pushed, removed, renamed
-or added. -/
+/-- `set_existing_raw_value` (`ValueMut::set`) on a well-formed body: its own forward scan finds the
+LAST item with the key, which is rewritten as `key <separators> <escaped value>`; nothing else
+changes (or no item has the key and the section is skipped). -/
+theorem set_existing_frame_items (w : Ws) (key value : Bytes) (is : List Item) (hok : ∀ i ∈ is, i.ok = true) :
+    ((mutRange key (indexed (flatten is)) false 0 0).2 = 0 ∧ ∀ it ∈ is, it.matches key = false) ∨
+    (∃ sp : KeySplit key is, (mutRange key (indexed (flatten is)) false 0 0).2 ≠ 0 ∧
+      valueMutSet w (flatten is) key value (mutRange key (indexed (flatten is)) false 0 0).1
+        (mutRange key (indexed (flatten is)) false 0 0).2 =
+      flatten (sp.pre ++ .kv key w.seps.reverse [.value (escapeValue value)] :: sp.post)) :=
+  valueMutSet_items w key value is hok
+
+/-- Over ALL edit histories without `remove_section`: every section that was there at the start
+keeps exactly its comments, in order, whatever is set, pushed, removed, renamed or added. -/
 theorem history_comments_preserved (bs : Bytes) (ops : List Op) (f : FileS) (hl : load bs = some f)
-    (hs : ∀ op ∈ ops, op.inScope = true) (hr : ∀ op ∈ ops, op.isRemoveSection = false) :
+    (hr : ∀ op ∈ ops, op.isRemoveSection = false) :
     (applyAll f ops).comments.take f.sections.length = f.comments :=
-  (applyAll_comments ops f hs hr (load_wf hl)).2
+  (applyAll_comments ops f hr (load_wf hl)).2
 
--- non-vacuity: a loaded file with comments, a five-call history
+-- non-vacuity: a loaded file with comments, a six-call history
 example : ∃ f, load [91, 97, 93, 10, 35, 99, 10, 107, 61, 118, 32, 59, 100, 10, 106, 10] = some f ∧
     (applyAll f [.set [97] none [107] [120], .push [97] none [109] (some [49]), .remove [97] none [106],
-      .newSection [98] none, .rename [97] none [99] none]).write =
-      [91, 99, 93, 10, 35, 99, 10, 107, 61, 120, 32, 59, 100, 10, 109, 61, 49, 10, 91, 98, 93, 10] := by
+      .newSection [98] none, .rename [97] none [99] none, .setExisting [99] none [109] [50]]).write =
+      [91, 99, 93, 10, 35, 99, 10, 107, 61, 120, 32, 59, 100, 10, 109, 61, 50, 10, 91, 98, 93, 10] := by
   refine ⟨_, rfl, by decide +kernel⟩
 
 /-- The property in full (NOT proved): after any call that succeeds, serializing and re-parsing
